@@ -10,6 +10,7 @@ import (
 	"github.com/ethereum/go-ethereum/common"
 	"pgregory.net/rapid"
 
+	"github.com/teleport-network/teleport/x/aggregate"
 	aggtypes "github.com/teleport-network/teleport/x/aggregate/types"
 
 	"verif/harness/kf"
@@ -529,10 +530,40 @@ func (m *Reg) Finish() {
 	}
 }
 
+// genesisPairs lets a third of the histories start from a registry that came in through the chain's genesis file instead of
+// through proposals: pairs of externally owned contracts whose address is spelled the ways genesis validation accepts
+// (EIP-55, all lower case, all upper case), imported by the module's InitGenesis.
+func (m *Reg) genesisPairs(t *rapid.T) {
+	if rapid.IntRange(0, 2).Draw(t, "genesisPairs") != 0 {
+		return
+	}
+	w := m.W
+	n := rapid.IntRange(1, 2).Draw(t, "genesisPairs.n")
+	gs := aggtypes.GenesisState{Params: w.App.AggregateKeeper.GetParams(w.C.Ctx())}
+	for i := 0; i < n; i++ {
+		tok := w.DeployToken(KindPlain, w.Users[0], fmt.Sprintf("Genesis%d", i), fmt.Sprintf("GEN%d", i), 18, 1000)
+		spelled := tok.Addr.Hex()
+		switch rapid.SampledFrom([]string{"eip55", "lower", "upper"}).Draw(t, "genesisPairs.spelling") {
+		case "lower":
+			spelled = strings.ToLower(spelled)
+		case "upper":
+			spelled = "0x" + strings.ToUpper(spelled[2:])
+		}
+		gs.TokenPairs = append(gs.TokenPairs, aggtypes.TokenPair{ERC20Address: spelled, Denoms: []string{aggtypes.CreateDenom(tok.Addr.Hex())},
+			Enabled: rapid.IntRange(0, 3).Draw(t, "genesisPairs.enabled") != 0, ContractOwner: aggtypes.OWNER_EXTERNAL})
+		m.logf("genesis pair %s -> %s", spelled, gs.TokenPairs[i].Denoms[0])
+	}
+	kit.Must(gs.Validate(), "generated aggregate genesis")
+	aggregate.InitGenesis(w.C.Ctx(), *w.App.AggregateKeeper, w.App.AccountKeeper, gs)
+	m.R.Label("history_starts_from_genesis_imported_pairs")
+	m.Invariant(t)
+}
+
 // RunRegistry is the C12 property body.
 func RunRegistry(t *rapid.T, r *rec.Recorder) {
 	m := NewReg(r)
 	defer m.Finish()
+	m.genesisPairs(t)
 	t.Repeat(map[string]func(*rapid.T){
 		"step": m.Step,
 		"":     m.Invariant,
